@@ -898,5 +898,5 @@ def main(tier, seed, replay=None):
     if tier == "thorough":
         run_shards(camp, __name__, "shard", 16, examples=1500)
     else:
-        run_shards(camp, __name__, "shard", 8, examples=70)
+        run_shards(camp, __name__, "shard", 8, examples=140)
     return camp.finish()
